@@ -63,3 +63,19 @@ package metric
 //@   prop -
 //@   instances int64; float64
 //@   trusted "aggregator cache (generic cache with its own lock, pipeline registration): result arbitrary; only used as the source of the id"
+
+// PeriodicReader.Shutdown, the body run by shutdownOnce: the exporter is shut down EXACTLY ONCE on every path - whether or not
+// the final flush succeeded (the Once is consumed, so nothing could repair a skipped exporter shutdown later) - and the reader
+// is marked shut down under its lock
+//@ ghost var prExpShut int
+//@ guarded_by PeriodicReader.mu: isShutdown
+//@ func (r *PeriodicReader) Shutdown$1()
+//@   prop C15
+//@   overflow assumed
+//@   unchecked frame,no-panic contexts, channels, the pool and the exporter are outside the contracts
+//@   acquires PeriodicReader.mu
+//@   modifies ghost prExpShut
+//@   ghost@entry : prExpShut = 0
+//@   ghost@call Shutdown#* : prExpShut = prExpShut + 1
+//@   assert@return#* : prExpShut == 1
+//@   assert@store isShutdown#* : $val && prExpShut == 1
